@@ -145,7 +145,12 @@ class ConfigManager(object):
     def save(self, profile_name, config, serialize_type=TYPE_JSON, dest=None):
         outputdata = self.config_to_str(config, serialize_type)
         if dest is None:
-            StorageTools.writeProfileConfig(profile_name, outputdata)
+            for ext, ftype in self.MAP_EXT.items():
+                if ftype == serialize_type:
+                    StorageTools.writeProfileData(profile_name, self.NAME_FILE_CONFIG + "." + ext, outputdata)
+            for ext, ftype in self.MAP_EXT.items():
+                if ftype != serialize_type:
+                    StorageTools.removeProfileData(profile_name, self.NAME_FILE_CONFIG + "." + ext)
         else:
             with open(dest, 'w') as outputfile:
                 outputfile.write(outputdata)
